@@ -34,6 +34,7 @@ import Driver.KeyType
 import Driver.TemplateReuse
 import Driver.CRLIssuer
 import Driver.PubHex
+import Driver.KexGlue
 open Gmsm
 
 def dispatch (toks : List String) : String :=
@@ -110,6 +111,9 @@ def dispatch (toks : List String) : String :=
     | some r => r
     | none =>
     match Driver.pubHexDispatch toks with
+    | some r => r
+    | none =>
+    match Driver.kexGlueDispatch toks with
     | some r => r
     | none =>
     match toks with
